@@ -592,7 +592,7 @@ def run(prop, report, tier, seed, replay=None):
     n = VOLUME[tier]
     specs = []
     if replay is not None:
-        specs = [replay['input']['spec']] if 'spec' in replay['input'] else []      # (store-level replays carry no spec)
+        specs = [replay['input']['spec']] if replay['input'].get('spec') is not None else []      # (store-level replays carry no spec)
     else:
         if prop in ('C07', 'C09'):
             specs += WITNESSES       # the listed known-finding inputs always run first
